@@ -367,10 +367,13 @@ def parent(args):
             pass
 
     # --- vacuity guard --------------------------------------------------------------------------
-    floors = getattr(prop, "FLOORS", {}).get(tier, {}) if not args.examples else {}
+    # FLOORS hold the *typical* count of an interesting class at the quick budget; the guard fires when a class
+    # drops below 30% of that (Hypothesis' sampling is far from uniform, so tighter floors would be flaky).
+    floors = getattr(prop, "FLOORS", {}).get("quick", {}) if not args.examples else {}
     vac = []
     if not violations and not harness_errors:
         for cls, mn in floors.items():
+            mn = int(0.3 * mn)
             if merged.classes.get(cls, 0) < mn:
                 vac.append("class %r seen %d times, floor %d" % (cls, merged.classes.get(cls, 0), mn))
 
